@@ -110,3 +110,34 @@ def readAll (cap : Nat) : Nat → Bufio → Net → List Bytes × Bytes
     | (.eof part, _, _) => ([], part)
 
 end Varlink
+
+namespace Varlink
+
+/-- read primitives of `ctxio.Conn` as used by the library and by handlers of upgraded calls -/
+inductive ROp where
+  | frame               -- `ReadBytes(ctx, 0)`
+  | raw (n : Nat)       -- `Read(ctx, p)` with `len(p) = n`
+  deriving DecidableEq, Repr
+
+/-- the bytes each operation handed to its caller (for `ReadBytes` hitting EOF: the partial data
+    returned along with the error), and the final state -/
+def runOps (cap : Nat) (path : ReadPath) : List ROp → Bufio → Net → List Bytes × Bufio × Net
+  | [], b, net => ([], b, net)
+  | .frame :: ops, b, net =>
+    match readBytes cap 0 (readFuel b net) [] b net with
+    | (.ok bs, b', net') =>
+      let (outs, b'', net'') := runOps cap path ops b' net'
+      (bs :: outs, b'', net'')
+    | (.eof part, b', net') =>
+      let (outs, b'', net'') := runOps cap path ops b' net'
+      (part :: outs, b'', net'')
+  | .raw n :: ops, b, net =>
+    match rawRead cap path n b net with
+    | (some a, b', net') =>
+      let (outs, b'', net'') := runOps cap path ops b' net'
+      (a :: outs, b'', net'')
+    | (none, b', net') =>
+      let (outs, b'', net'') := runOps cap path ops b' net'
+      ([] :: outs, b'', net'')
+
+end Varlink
